@@ -154,6 +154,8 @@ pub fn dispatch(cmd: &str, args: &[String]) -> i32 {
         "tables" => tables(args),
         "eval" => eval_cmd(args),
         "game-history" => game_history(args),
+        "minimax" => minimax_cmd(args),
+        "mate-in-one" => mate_in_one(args),
         "position-cmd" => position_cmd(args),
         "to-algebraic" => to_algebraic_all(args),
         _ => { eprintln!("unknown command {}", cmd); 2 }
@@ -769,5 +771,109 @@ fn to_algebraic_all(_args: &[String]) -> i32 {
         }
     } } } }
     rep.distinct = rep.evals;
+    rep.finish()
+}
+
+// ------------------------------------------------------------------------------------------------ C05
+const WIN: i32 = 30000;
+fn class(s: i32) -> i32 { if s >= WIN { 1 } else if s <= -WIN { -1 } else { 0 } }
+/// plain negamax over the engine's own move generator, leaves scored by the engine's own quiescence search (full window)
+fn plain(mg: &MoveGenerator, q: &mut Searcher, b: &Board, d: u8) -> i32 {
+    if d == 0 { return q.verif_quiescence(b); }
+    let ms = mg.generate_moves(b);
+    if ms.is_empty() { return if mg.is_in_check(b) { -1_000_000 } else { 0 }; }
+    let mut best = i32::MIN;
+    for m in ms { let v = -plain(mg, q, &b.clone_with_move(&m), d - 1); if v > best { best = v; } }
+    best
+}
+/// C05 (bounded): completed iterative-deepening searches to depth 1..3 from a fresh engine report the minimax value of the
+/// depth-limited tree with quiescence leaves, and the returned move attains it (mate scores compared as won / lost)
+fn minimax_cmd(args: &[String]) -> i32 {
+    let seed = seed_arg(args);
+    let walks = num_arg(args, "walks", 12);
+    let maxd = num_arg(args, "depth", 3) as u8;
+    let mut rep = Report::new("minimax", &format!("10 small positions (<= 10 men, small quiescence trees) + {} positions 1-5 random legal plies away (seed {}), depths 1..{}: fresh-engine score vs plain minimax with quiescence leaves; root move attains it", walks, seed, maxd));
+    let mg = MoveGenerator::new();
+    let mut q = Searcher::new();
+    // positions whose quiescence trees are small (few men, no promotion races): the reference is plain minimax, exponential
+    let small: [&str; 10] = ["8/8/8/4k3/8/8/4K3/8 w - - 0 1", "8/8/4k3/8/2p5/8/B2P2K1/8 w - - 0 1", "7k/8/5K2/6Q1/8/8/8/8 w - - 0 1",
+        "4k3/8/8/8/3pP3/8/8/4K3 b - e3 0 1", "6k1/5ppp/8/8/8/8/8/R3K3 w Q - 0 1", "1k6/8/8/8/8/8/R7/1R2K3 b - - 0 1", "5k2/8/8/8/8/8/8/4K2R w K - 0 1",
+        "4k3/5p2/8/6B1/8/7q/6P1/3R2K1 w - - 0 1", "8/8/8/2k5/3pP3/8/8/4K2B b - e3 0 1", "3k4/3p4/8/K1P4r/8/8/8/8 b - - 0 1"];
+    let mut positions: Vec<RPos> = match str_arg(args, "fen") { Some(f) => vec![parse_fen(f).expect("fen")], None => small.iter().filter_map(|f| parse_fen(f)).filter(|p| valid(p)).collect() };
+    if str_arg(args, "fen").is_none() {
+        // plus positions a few pseudo-random legal plies away from them
+        let mut x = seed.wrapping_mul(0x9E3779B97F4A7C15) | 1;
+        let base: Vec<RPos> = positions.clone();
+        for w in 0..walks { let mut p = base[w % base.len()].clone(); for _ in 0..(1 + w % 5) { let lm = legal_moves(&p); if lm.is_empty() { break; } x ^= x << 13; x ^= x >> 7; x ^= x << 17; p = apply(&p, lm[(x % lm.len() as u64) as usize]); } positions.push(p); }
+    }
+    for p in positions.iter() {
+        let fen = to_fen(p);
+        let b = eng_board(p);
+        let men = p.sq.iter().filter(|x| x.is_some()).count();
+        if mg.generate_moves(&b).is_empty() { continue; }
+        for d in 1..=maxd {
+            if men > 10 { continue; }
+            let want = plain(&mg, &mut q, &b, d);
+            let mut s = Searcher::new();
+            let (score, mv) = s.find_best_move(&b, d, None);
+            rep.evals += 1;
+            let same = class(score) == class(want) && (class(want) != 0 || score == want);
+            let mv_ok = match mv { Some(m) => { let v = -plain(&mg, &mut q, &b.clone_with_move(&m), d - 1); class(v) == class(want) && (class(want) != 0 || v == want) }, None => false };
+            if !same || !mv_ok {
+                rep.violation = Some(format!("{{\"input\": {{\"fen\": {}, \"depth\": {}}}, \"real\": {{\"score\": {}, \"move\": {}, \"move_attains_value\": {}}}, \"expected\": {{\"minimax\": {}}}}}",
+                    jstr(&fen), d, score, jstr(&mv.map(|m| m.to_algebraic()).unwrap_or("0000".into())), mv_ok, want));
+                return rep.finish();
+            }
+        }
+        rep.distinct += 1;
+        if rep.distinct % 10 == 1 { rep.sample(jstr(&fen)); }
+    }
+    rep.finish()
+}
+
+// ------------------------------------------------------------------------------------------------ C08
+/// C08 (bounded): from a fresh engine, with a mate in one on the board every completed search of depth 1..4 answers with a
+/// mating move; at depth 2..3 a move that allows mate in one is not chosen when some move avoids it
+fn mate_in_one(args: &[String]) -> i32 {
+    let seed = seed_arg(args);
+    let walks = num_arg(args, "walks", 200);
+    let mut rep = Report::new("mate-in-one", &format!("corpus positions (seed {}, {} walks): every position with a mate in one x depth 1..4; every position mixing moves that do / do not allow mate in one x depth 2..3", seed, walks));
+    let mates_in_one = |p: &RPos| -> Vec<RMove> { legal_moves(p).into_iter().filter(|m| { let n = apply(p, *m); legal_moves(&n).is_empty() && in_check(&n, n.stm) }).collect() };
+    for p in corpus(seed, walks, 40).iter() {
+        let fen = to_fen(p);
+        let b = eng_board(p);
+        let lm = legal_moves(p);
+        if lm.is_empty() { continue; }
+        let m1 = mates_in_one(p);
+        if !m1.is_empty() {
+            for d in 1..=4u8 {
+                let mut s = Searcher::new();
+                let (_, mv) = s.find_best_move(&b, d, None);
+                rep.evals += 1;
+                let ok = mv.map(|m| m1.iter().any(|x| x.uci() == m.to_algebraic())).unwrap_or(false);
+                if !ok {
+                    rep.violation = Some(format!("{{\"input\": {{\"fen\": {}, \"depth\": {}}}, \"real\": {{\"bestmove\": {}}}, \"expected\": {}}}", jstr(&fen), d,
+                        jstr(&mv.map(|m| m.to_algebraic()).unwrap_or("0000".into())), jstr(&format!("a mating move: one of {:?}", m1.iter().map(|m| m.uci()).collect::<Vec<_>>()))));
+                    return rep.finish();
+                }
+            }
+            rep.distinct += 1;
+        } else {
+            let allows: Vec<String> = lm.iter().filter(|m| !mates_in_one(&apply(p, **m)).is_empty()).map(|m| m.uci()).collect();
+            if !allows.is_empty() && allows.len() < lm.len() {
+                for d in 2..=3u8 {
+                    let mut s = Searcher::new();
+                    let (_, mv) = s.find_best_move(&b, d, None);
+                    rep.evals += 1;
+                    if let Some(m) = mv { if allows.contains(&m.to_algebraic()) {
+                        rep.violation = Some(format!("{{\"input\": {{\"fen\": {}, \"depth\": {}}}, \"real\": {{\"bestmove\": {}}}, \"expected\": \"a move that does not allow mate in one (some exist)\"}}", jstr(&fen), d, jstr(&m.to_algebraic())));
+                        return rep.finish();
+                    } }
+                }
+                rep.distinct += 1;
+            }
+        }
+        if rep.distinct % 25 == 1 { rep.sample(jstr(&fen)); }
+    }
     rep.finish()
 }
